@@ -895,6 +895,9 @@ class FortranReaderBase:
                 self.reader = FortranFileReader(
                     path, include_dirs=include_dirs, ignore_comments=ignore_comments
                 )
+                # The included text takes the place of the INCLUDE line and
+                # so is in the source form of the including source.
+                self.reader.set_format(self.format)
                 result = self.reader.next(ignore_comments=ignore_comments)
                 return result
             return item
